@@ -320,6 +320,9 @@ pub fn verify_authenticate(neg: &Negotiate, challenge_raw: &[u8], challenge_cfg:
     {
         let mut ci = 0usize;
         for (sid, sval) in challenge_cfg.av_pairs.iter() {
+            // MsvAvSingleHost, MsvAvTargetName and MsvAvChannelBindings are the client's to set: whatever a server put
+            // there need not come back
+            if [8u16, 9, 10].contains(sid) { continue; }
             // find this pair among the client's, skipping what a client may add
             loop {
                 let (cid, cval) = match client_pairs.get(ci) { Some(p) => *p, None => return Err(format!("temp: AvPair {:#x} of the challenge is missing from the response", sid)) };
@@ -364,7 +367,10 @@ pub fn verify_authenticate(neg: &Negotiate, challenge_raw: &[u8], challenge_cfg:
 
     let session_base_key = hmac_md5(&key, proof);
     let mut exported_session_key = session_base_key;
-    if auth.flags & NEG_KEY_EXCH != 0 {
+    // MS-NLMP 3.1.5.1.2 / 3.2.5.1.2: the key exchange takes place when KEY_EXCH is negotiated together with SIGN or SEAL;
+    // with KEY_EXCH alone both a client that exchanges a key anyway and one that does not are within the text
+    let protect = auth.flags & 0x30 != 0;
+    if auth.flags & NEG_KEY_EXCH != 0 && (protect || !auth.encrypted_session_key.is_empty()) {
         if auth.encrypted_session_key.len() != 16 {
             return Err(format!("key: EncryptedRandomSessionKey has {} bytes instead of 16", auth.encrypted_session_key.len()));
         }
